@@ -54,10 +54,11 @@ import (
 	"github.com/saucelabs/forwarder"
 	"github.com/saucelabs/forwarder/ratelimit"
 	"github.com/saucelabs/forwarder/verifharness/core"
+	"github.com/saucelabs/forwarder/verifharness/srcgen"
 	"golang.org/x/time/rate"
 )
 
-func init() { core.Register("C20", core.Scenario{Run: Run, Replay: Replay}) }
+func init() { core.Register("C20", core.Scenario{Run: Run, Replay: Replay, Prepare: srcgen.PrepareC20}) }
 
 const (
 	kib = 1 << 10
